@@ -364,8 +364,9 @@ let op_hexsweep args =
     [!acc; !sum]
   | _ -> raise (Bad_case "hexsweep")
 let put_config c =
-  [1; List.length c.hook] @ List.concat_map put_bytes c.hook @ put_bytes c.primary @ put_bytes c.error
-  @ put_bytes c.highlight @ put_bytes c.code0 @ put_z c.context @ put_z c.timeout_ns @ put_z c.cache_size
+  let ((hk, (((pr, er), hi), co)), ((ctx, tmo), cs)) = config_fields c in
+  [1; List.length hk] @ List.concat_map put_bytes hk @ put_bytes pr @ put_bytes er
+  @ put_bytes hi @ put_bytes co @ put_z ctx @ put_z tmo @ put_z cs
 let op_cfg args =
   let (_text, r) = take_bytes args in
   let (hook, r) = take_opt_tv r in let (pr, r) = take_opt_tv r in let (er, r) = take_opt_tv r in
@@ -375,6 +376,58 @@ let op_cfg args =
   let raw = { r_hook = hook; r_primary = pr; r_error = er; r_highlight = hi; r_code = co; r_context = ctx;
               r_timeout = tmo; r_cache = cs; r_feeds_ok = (feeds_ok <> 0); r_unknown = (unknown <> 0) } in
   match accept raw with Some c -> put_config c | None -> [0]
+
+(* ---------------- markup rendering (C12, C15, C01, C06, C14) ---------------- *)
+let rec take_node l =
+  let (tag, r) = take1 l in
+  match tag with
+  | 0 -> let (t, r) = take_text r in (NText t, r)
+  | 1 -> let (name, r) = take_text r in
+    let (na, r) = take1 r in
+    let rec attrs n r = if n = 0 then ([], r) else
+        let (k, r) = take_text r in let (v, r) = take_text r in let (rest, r) = attrs (n - 1) r in ((k, v) :: rest, r) in
+    let (ats, r) = attrs na r in
+    let (nk, r) = take1 r in
+    let rec kids n r = if n = 0 then ([], r) else let (k, r) = take_node r in let (ks, r) = kids (n - 1) r in (k :: ks, r) in
+    let (ks, r) = kids nk r in (NElem (name, ats, ks), r)
+  | _ -> (NOther, r)
+let take_nodes l =
+  let (n, r) = take1 l in
+  if n < 0 then None else
+  let rec go n r = if n = 0 then ([], r) else let (k, r) = take_node r in let (ks, r) = go (n - 1) r in (k :: ks, r) in
+  Some (fst (go n r))
+let render_model kind content lib w =
+  let c = default_colors in
+  match kind with
+  | 0 -> Some (plain_render_with_links c content (z_of_int w))
+  | 2 -> Some (gem_render_with_links c content (z_of_int w))
+  | _ -> (match take_nodes lib with Some ns -> Some (render_with_links c ns (z_of_int w)) | None -> None)
+let op_render args lib =
+  let (kind, r) = take1 args in let (content, r) = take_text r in let (widths, _) = take_list r in
+  match render_model kind content lib 80 with
+  | None -> [0]
+  | Some (_, links) ->
+    [1; List.length links] @ List.concat_map put_text links
+    @ List.concat_map (fun w -> match render_model kind content lib w with Some (t, _) -> put_text t | None -> []) widths
+let rec take_texts n l = if n = 0 then ([], l) else let (t, r) = take_text l in let (ts, r) = take_texts (n - 1) r in (t :: ts, r)
+let fits w out = List.for_all (fun l -> List.length (expand l) <= w) (split_nl out)
+let orc_render args lib impl =
+  let (kind, r) = take1 args in let (content, r) = take_text r in let (widths, _) = take_list r in
+  match impl with
+  | 1 :: nl :: rest ->
+    (try
+      let (links, rest) = take_texts nl rest in
+      let (outs, _) = take_texts (List.length widths) rest in
+      let pairs = List.combine widths outs in
+      ignore links; ignore kind; ignore content;
+      [("safe", List.for_all safe_b outs);
+       ("neutral", List.for_all neutral_b outs);
+       ("wf_out", List.for_all wf_text_b outs);
+       ("fits_width", List.for_all (fun (w, o) -> w < 1 || fits w o) pairs);
+       ("history_independent",
+        List.for_all (fun (w, o) -> List.for_all (fun (w', o') -> w <> w' || o = o') pairs) pairs)]
+    with _ -> [("well_formed_result", false)])
+  | _ -> []
 
 (* ---------------- C17: object accessors ---------------- *)
 let rec take_jv l =
@@ -448,6 +501,7 @@ let () =
   reg "squash" op_squash no_oracle;
   reg "height" op_height no_oracle;
   reg "unitable" op_unitable no_oracle;
+  regl "render" op_render orc_render;
   reg "hex" op_hex (orc_equal op_hex);
   reg "hexsweep" op_hexsweep (orc_equal op_hexsweep);
   reg "cfg" op_cfg (orc_equal op_cfg);
